@@ -4,8 +4,8 @@ import (
 	"bufio"
 	"bytes"
 	"context"
-	"errors"
 	"encoding/json"
+	"errors"
 	"fmt"
 	"io"
 	"net"
@@ -65,9 +65,9 @@ type c10Reply struct {
 	Error      string   `json:"error,omitempty"`
 	SetupOK    bool     `json:"setup_ok"`
 	Obs        []c10Obs `json:"obs"`
-	Accepts    int      `json:"accepts"`     // server role: sessions the application accepted during the case
-	VictimSid  uint32   `json:"victim_sid"`  // real id behind the "victim" selector
-	Own        []uint32 `json:"own"`         // real ids behind own1 / own2 (client role)
+	Accepts    int      `json:"accepts"`    // server role: sessions the application accepted during the case
+	VictimSid  uint32   `json:"victim_sid"` // real id behind the "victim" selector
+	Own        []uint32 `json:"own"`        // real ids behind own1 / own2 (client role)
 	ElapsedMs  int64    `json:"elapsed_ms"`
 	SameUnder  bool     `json:"same_underlay"` // client role: own1 and own2 share an underlay
 	VictimLeft string   `json:"victim_final"`
@@ -83,7 +83,7 @@ type c10Cmd struct {
 
 var c10Users = []sim.User{{Name: "alice", Password: "alice-secret"}, {Name: "bob", Password: "bob-secret"}, {Name: "carol", Password: "carol-secret"}}
 
-const c10ProbeTimeout = 4 * time.Second
+const c10ProbeTimeout = 8 * time.Second
 
 // ------------------------------------------------------------------------------------------------
 
@@ -276,7 +276,9 @@ func c10AvoidSlotBoundary() {
 	}
 }
 
-func (c *c10Child) serverAddrUDP() *net.UDPAddr { return &net.UDPAddr{IP: net.IPv4(10, 8, 0, 1), Port: 8964} }
+func (c *c10Child) serverAddrUDP() *net.UDPAddr {
+	return &net.UDPAddr{IP: net.IPv4(10, 8, 0, 1), Port: 8964}
+}
 
 // newAttacker creates a wire-level client towards the real server.
 func (c *c10Child) newAttacker(user string, keys map[string][]byte, seed int64) (*c10Peer, error) {
@@ -314,6 +316,15 @@ func (c *c10Child) runServerCase(k *c10Case) c10Reply {
 	c10AvoidSlotBoundary()
 	start := time.Now()
 	keys := c10Keys(start)
+	// a previous case may have broken the other user's session (that was reported there): start from a
+	// working one
+	if c.probeApp(c.victimRd, c10ProbeTimeout) != "echo" {
+		go c.victim.Close()
+		if err := c.dialVictim(); err != nil {
+			rep.Error = "setup: " + err.Error()
+			return rep
+		}
+	}
 	c.mu.Lock()
 	accepts0 := len(c.order)
 	c.mu.Unlock()
@@ -374,6 +385,7 @@ func (c *c10Child) runServerCase(k *c10Case) c10Reply {
 			sid = c.victimRd.id
 		}
 		o.Sid = sid
+		fmt.Fprintf(os.Stderr, "c10-step %d\n", i) // lets the parent name the arrival a crash belongs to
 		from := home
 		if c.udp && s.From == "fresh" {
 			from = fresh
@@ -875,6 +887,7 @@ func (c *c10Child) runClientCase(k *c10Case) c10Reply {
 			}
 		}
 		o.Sid = sid
+		fmt.Fprintf(os.Stderr, "c10-step %d\n", i)
 		c10HostileContent(content, k.Seed, i)
 		hi0 := 0
 		if target != nil {
@@ -1028,9 +1041,11 @@ func (c *c10MixedConn) Write(p []byte) (int, error) {
 	}
 	return 0, &net.OpError{Op: "write", Net: "tcp", Err: errors.New("broken pipe")}
 }
-func (c *c10MixedConn) Close() error                       { return nil }
-func (c *c10MixedConn) LocalAddr() net.Addr                { return &net.TCPAddr{IP: net.IPv4(127, 0, 0, 1), Port: 1} }
-func (c *c10MixedConn) RemoteAddr() net.Addr               { return &net.TCPAddr{IP: net.IPv4(127, 0, 0, 1), Port: 2} }
+func (c *c10MixedConn) Close() error        { return nil }
+func (c *c10MixedConn) LocalAddr() net.Addr { return &net.TCPAddr{IP: net.IPv4(127, 0, 0, 1), Port: 1} }
+func (c *c10MixedConn) RemoteAddr() net.Addr {
+	return &net.TCPAddr{IP: net.IPv4(127, 0, 0, 1), Port: 2}
+}
 func (c *c10MixedConn) SetDeadline(t time.Time) error      { return nil }
 func (c *c10MixedConn) SetReadDeadline(t time.Time) error  { return nil }
 func (c *c10MixedConn) SetWriteDeadline(t time.Time) error { return nil }
